@@ -81,6 +81,14 @@ def typed_models(draw, max_nodes=10, cmds=None, with_meta=True, clean=False):
         nodes.append({"name": "In%d" % i, "cmd": "EEMSRead", "col": col})
         if draw(st.booleans()):
             nodes[-1]["arg_perm"] = draw(st.lists(st.integers(0, 9), min_size=1, max_size=5))
+    # further reads of the same columns with another (or no) missing value: the file holds the column's own marker at
+    # the missing rows, which such a read sees as ordinary data unless its own MissingVal happens to equal it
+    for j in range(draw(st.integers(0, 2))):
+        col = draw(st.sampled_from(sorted(table["cols"])))
+        spec = table["cols"][col]
+        choices = [None, 7, -77, 0] + ([spec["missing"]] if spec.get("missing") is not None else []) + [
+            x for x, m in zip(spec["data"], spec["mask"] or [0] * table["rows"]) if not m][:2]
+        nodes.append({"name": "Again%d" % j, "cmd": "EEMSRead", "col": col, "read_missing": draw(st.sampled_from(choices)), "own_missing": True})
     n_extra = min(max_nodes, draw(st.sampled_from([1, 2, 3, 4, 5, 6, 7, 8, 10, 12])))
     pool_vals = [x for c in table["cols"].values() for x, m in zip(c["data"], c["mask"] or [0] * table["rows"]) if not m][:6]
     for k in range(n_extra):
@@ -161,8 +169,9 @@ def node_arguments(model, node, csv_name="input.csv"):
     if node["cmd"] == "EEMSRead":
         spec = model["cols"][node["col"]]
         args = [("InFileName", '"%s"' % csv_name), ("InFieldName", '"%s"' % node["col"])]
-        if spec.get("missing") is not None:
-            args.append(("MissingVal", fmt_number(spec["missing"])))
+        missing = node["read_missing"] if node.get("own_missing") else spec.get("missing")
+        if missing is not None:
+            args.append(("MissingVal", fmt_number(missing)))
         args.append(("DataType", '"Integer"' if spec["dtype"] == "int64" else '"Float"'))
         return permute_args(args, node.get("arg_perm"))
     cmd = node["cmd"]
@@ -213,10 +222,20 @@ class NodeUndefined(object):
         self.why = why
 
 
-def column_cells(spec):
+def column_cells(spec, node=None):
+    """Cells an EEMSRead of this column returns: the file holds the column's marker at its missing rows; the read
+    masks exactly the cells equal to *its* MissingVal."""
+    own = node is not None and node.get("own_missing")
+    missing = node["read_missing"] if own else spec.get("missing")
     out = []
     for x, m in zip(spec["data"], spec["mask"] or [0] * len(spec["data"])):
-        out.append(None if m else Val(F(x)))
+        value = spec["missing"] if m else x
+        if spec["dtype"] == "int64":
+            value = int(value)
+        if missing is not None and value == (int(missing) if spec["dtype"] == "int64" else missing):
+            out.append(None)
+        else:
+            out.append(Val(F(value)))
     return out
 
 
@@ -225,7 +244,7 @@ def reference_results(model):
     res = {}
     for node in model["nodes"]:
         if node["cmd"] == "EEMSRead":
-            res[node["name"]] = column_cells(model["cols"][node["col"]])
+            res[node["name"]] = column_cells(model["cols"][node["col"]], node)
             continue
         ins = [res[n] for n in node["inputs"]]
         if any(not isinstance(x, list) for x in ins):
